@@ -557,6 +557,9 @@ func (c *ctx) mutTLC() ([]seed, []mutScript) {
 		r.Infra("seed extraction from %s: %d seeds, %v", r.Repo, len(seeds), err)
 		return nil, nil
 	}
+	if r.Thorough() {
+		seeds = append(seeds, c.grammarSeeds()...)
+	}
 	lens := map[int]int{}
 	var kept []seed
 	for _, s := range seeds {
@@ -629,6 +632,60 @@ func (c *ctx) mutTLC() ([]seed, []mutScript) {
 	r.Set("mutation_scripts", len(out))
 	r.Logf("TokensMut: %d distinct scripts", len(out))
 	return seeds, out
+}
+
+// grammarSeeds: programs exported by another specification (JsGrammar.tla of C13: terminal strings of
+// its sub-grammars) as further seeds (thorough tier)
+func (c *ctx) grammarSeeds() []seed {
+	r := c.r
+	var mu sync.Mutex
+	var out []seed
+	var wg sync.WaitGroup
+	for _, g := range []string{"cover", "class", "regexdiv", "asi"} {
+		wg.Add(1)
+		go func(g string) {
+			defer wg.Done()
+			var local []seed
+			res, err := tlcrun.Run(r, tlcrun.Options{Module: "JsGrammar", Config: "JsGrammar." + g + ".quick.cfg", Workers: 2, TimeoutSec: 900, HeapGB: 4, OnCase: func(raw []byte) {
+				var gc struct {
+					Toks []string `json:"toks"`
+				}
+				if json.Unmarshal(raw, &gc) != nil || len(gc.Toks) == 0 {
+					return
+				}
+				var sb strings.Builder
+				for i, t := range gc.Toks {
+					if t == "<NL>" {
+						sb.WriteString("\n")
+						continue
+					}
+					if i > 0 && gc.Toks[i-1] != "<NL>" {
+						sb.WriteString(" ")
+					}
+					sb.WriteString(t)
+				}
+				local = append(local, seed{Lang: "js", Text: sb.String(), From: "spec/JsGrammar.tla:" + g})
+			}})
+			if err != nil || res == nil || res.Violated != "" {
+				r.Logf("JsGrammar/%s not usable as a seed source: %v", g, err)
+				return
+			}
+			// a seeded sample of at most 4000 strings per grammar
+			sort.Slice(local, func(i, j int) bool { return local[i].Text < local[j].Text })
+			rnd := rand.New(rand.NewSource(r.Seed*131 + int64(len(g))))
+			rnd.Shuffle(len(local), func(i, j int) { local[i], local[j] = local[j], local[i] })
+			if len(local) > 4000 {
+				local = local[:4000]
+			}
+			mu.Lock()
+			out = append(out, local...)
+			mu.Unlock()
+		}(g)
+	}
+	wg.Wait()
+	sort.Slice(out, func(i, j int) bool { return out[i].From+out[i].Text < out[j].From+out[j].Text })
+	r.Set("seeds_from_other_specs", len(out))
+	return out
 }
 
 func (c *ctx) mutDispatch(wg *sync.WaitGroup, seeds []seed, scripts []mutScript, alphabets map[string][]string, kinds []nestKind) {
